@@ -20,6 +20,12 @@ VARIANTS = [
     dict(name="tp-needs-status-fp", kind="break", rule="C03-positive", edits=[(OFI,
         "        elif est_status == MatchingStatus.TP and gt_status == MatchingStatus.TP:\n            tp_object_results.append(object_result)",
         "        elif est_status == MatchingStatus.TP and gt_status == MatchingStatus.TP:\n            fp_object_results.append(object_result)")]),
+    dict(name="seed4-iou3d-threshold-one-rescaled-to-percent", kind="break", rule="R-CMPDIR", edits=[(OM,
+        "        assert 0.0 <= threshold_value <= 1.0, f\"threshold must be [0.0, 1.0], but got {threshold_value}\"\n",
+        "        if threshold_value >= 1.0:\n            threshold_value = threshold_value / 100.0\n        assert 0.0 <= threshold_value <= 1.0, f\"threshold must be [0.0, 1.0], but got {threshold_value}\"\n")]),
+    dict(name="iou2d-percent-thresholds-above-one-only", kind="benign", edits=[(OM,
+        "        assert 0.0 <= threshold_value <= 1.0, f\"threshold must be [0.0, 1.0], but got {threshold_value}.\"\n",
+        "        if threshold_value > 1.0:\n            threshold_value = threshold_value / 100.0\n        assert 0.0 <= threshold_value <= 1.0, f\"threshold must be [0.0, 1.0], but got {threshold_value}.\"\n")]),
     dict(name="operands-swapped", kind="benign", edits=[(OM,
         "            return self.value > threshold_value\n\n    def _calculate_matching_score(\n        self,\n        estimated_object: DynamicObject,",
         "            return threshold_value < self.value\n\n    def _calculate_matching_score(\n        self,\n        estimated_object: DynamicObject,")]),
